@@ -92,8 +92,13 @@ def diff_signature(exp, got, alt_cell=None):
     return "+".join(sorted(sig)[:4])
 
 
+_CODE2CHAR = {(k[0] << 16) | (k[1] << 8) | k[2]: v for k, v in R.ASCII.items()}
+
+
 def ascii_map(img):
-    return "\n".join("".join(R.ASCII.get(tuple(int(v) for v in px), "?") for px in row) for row in img)
+    a = np.asarray(img).astype(np.int64)
+    code = ((a[..., 0] << 16) | (a[..., 1] << 8) | a[..., 2]).tolist()
+    return "\n".join("".join(_CODE2CHAR.get(v, "?") for v in row) for row in code)
 
 
 # ------------------------------------------------------------------ building / judging one maze
@@ -178,7 +183,7 @@ def check_maze(spec, res, adj=None, roundtrip=True):
                     res.fail(f"C10|as_ascii|{kind}|{fl}|differs_from_picture",
                              f"as_ascii({fl}) of {desc} is not the character map of the picture;\n got:\n{txt}\n expected:\n{want}", rd)
             if (se, ss) == (True, True):
-                full_txt = txt if txt == R.ascii_of(exp) else R.ascii_of(exp)
+                full_txt = R.ascii_of(exp)
         elif (se, ss) == (True, True):
             full_txt = R.ascii_of(exp)
 
@@ -416,11 +421,11 @@ STRUCT_THOROUGH = [(4, 4), (3, 5), (5, 3), (6, 6), (5, 5), (3, 4), (4, 3), (1, 7
 
 
 def quick_33_bits():
-    """3x3 in the quick tier: every spanning tree, every graph with <= 2 edges missing and every graph with <= 2 edges"""
+    """3x3 in the quick tier: every spanning tree, every graph with <= 1 edge missing and every graph with <= 1 edge"""
     E = len(R.lattice_edges(3, 3))
     full = (1 << E) - 1
     out = set(R.trees(3, 3))
-    for k in range(3):
+    for k in range(2):
         for combo in itertools.combinations(range(E), k):
             b = 0
             for x in combo:
@@ -444,7 +449,7 @@ def plan(tier):
         bits = quick_33_bits()
         for k in range(12):
             tasks.append(("graph_task", dict(shape=[3, 3], bits=bits[k::12], simple=False)))
-        cov["G(3,3)_subset(trees, <=2 edges missing, <=2 edges)"] = len(bits)
+        cov["G(3,3)_subset(trees, <=1 edge missing, <=1 edge)"] = len(bits)
     for (r, c) in (STRUCT_QUICK if tier == "quick" else STRUCT_THOROUGH):
         names = sorted(structured(r, c))
         per = 4 if r * c <= 36 else 2
